@@ -1,0 +1,24 @@
+/*
+ * Verification hooks (compiled in only with -DTBOX_VERIF_HOOKS).
+ * With the guard off this header declares nothing.
+ */
+#ifndef TBOX_ALARM_VERIF_HOOKS_H_20261002
+#define TBOX_ALARM_VERIF_HOOKS_H_20261002
+
+#ifdef TBOX_VERIF_HOOKS
+#include <cstdint>
+
+namespace tbox {
+namespace alarm {
+namespace verif {
+
+//! Function that replaces gettimeofday() in Alarm::GetCurrentUtcTime(); nullptr = real clock
+using UtcClockFunc = bool (*)(uint32_t &utc_sec, uint32_t &utc_usec);
+void SetUtcClock(UtcClockFunc func);
+
+}
+}
+}
+#endif //TBOX_VERIF_HOOKS
+
+#endif //TBOX_ALARM_VERIF_HOOKS_H_20261002
